@@ -18,12 +18,22 @@ KWV = {'gain': 2, 'label': 'L', 'offset': 3, 'thr': 0.5, 'cnt': 2}
 class AntA(pyrex.Antenna):
     def __init__(self, position, gain=1, label='x', **kw):
         super().__init__(position=position, noisy=False)
+        self.clears = []
+
+    def clear(self, reset_noise=False):
+        self.clears.append(bool(reset_noise))
+        super().clear(reset_noise=reset_noise)
 
 
 class AntB(pyrex.AntennaSystem):
     def __init__(self, position, gain=1, offset=0, **kw):
         super().__init__(pyrex.Antenna)
         self.setup_antenna(position=position, noisy=False)
+        self.clears = []
+
+    def clear(self, reset_noise=False):
+        self.clears.append(bool(reset_noise))
+        super().clear(reset_noise=reset_noise)
 
     @property
     def position(self):
@@ -153,7 +163,17 @@ class DetectorDriver:
             elif op == 'Hit':
                 R[last['a']].receive(pyrex.Signal(SIG_T, [0.0, 1.0, -1.0, 0.5], value_type='voltage'))
             elif op == 'Clear':
-                R[last['a']].clear()
+                targets = self.flat(st, last['a'])
+                for x in targets:
+                    x.clears = []
+                if last['reset']:
+                    R[last['a']].clear(reset_noise=True)
+                else:
+                    R[last['a']].clear()
+                for x in targets:
+                    if x.clears != [bool(last['reset'])]:
+                        raise Divergence('clear(reset_noise=%s) of detector %d as received by the antenna at %s' % (last['reset'], last['a'], (x.position,)),
+                                         [bool(last['reset'])], x.clears)
             elif op == 'Build':
                 d = R[last['a']]
                 d.build_antennas(**{k: KWV[k] for k in last['kw']})
